@@ -155,7 +155,8 @@ fn parse_event(op: &[String], map: &[usize]) -> Option<Event> {
             let instrument = idx(label);
             Some(EngineEvent::Market(MarketStreamEvent::Item(MarketEvent {
                 time_exchange: time_ms(te),
-                time_received: time_ms(te),
+                // received later than any exchange timestamp used by the generators
+                time_received: time_ms(te + 100_000),
                 exchange: EXCHANGES[0],
                 instrument,
                 kind,
